@@ -846,6 +846,20 @@ pub fn run_c11_seq(run: &mut Run) -> Stats {
         total.merge(sweep(&run.prop, &cfg, alphabet(c, false, true, true, Some(vec![0, 1, 40, 300])), d, 2));
     }
     total.merge(release_check(&run.prop));
+    // concurrent half: every interleaving of producer programs containing abort, and of
+    // consumers that drop the body after j frames, under the controlled scheduler
+    let seq = total.evaluations;
+    let mut r2 = Run::new(&run.prop, "sched_mc", tier);
+    let conc = crate::sched_mc::run_c11_conc(&mut r2);
+    run.extra.insert("sequential_histories".into(), json!(seq));
+    run.extra.insert("concurrent_schedules".into(), json!(conc.evaluations));
+    if let Some(f) = r2.extra.get("families") {
+        run.extra.insert("concurrent_families".into(), f.clone());
+    }
+    if !r2.exhaustive {
+        run.exhaustive = false;
+    }
+    total.merge(conc);
     total
 }
 
